@@ -5,12 +5,14 @@ import LokiModel.Generated.C12Tables
 Mirrors (line by line, defects included)
 
 * `loki/types/symbol_table.py` — `SymbolTable` (`_not_case_sensitive_format_lookup_name`, `_lookup_formatted_name`,
-  `lookup`, `__contains__`, `__getitem__`, `get`, `__setitem__`, `setdefault`, `update`, `clone`, the `parent` setter;
-  `__delitem__`, `pop` are **inherited from `dict`** and therefore use the key as spelled),
+  `lookup`, `__contains__`, `__getitem__`, `get`, `__setitem__`, `__delitem__`, `pop`, `setdefault`, `update`, `clone`,
+  the `parent` setter),
 * `loki/types/scope.py` — `Scope.__post_init__`, `_reset_parent`, `declare`, `update`, `get_type`, `get_symbol_scope`,
 * `loki/tools/util.py` — `CaseInsensitiveDict` (an `OrderedDict`: `update`/`setdefault` go through the overridden
-  `__setitem__`/`__contains__`, `__delitem__`/`pop` do not) and `CaseInsensitiveDefaultDict` (a `defaultdict`: only
-  `__setitem__`, `__getitem__`, `get`, `__contains__` fold the key; `update`, `setdefault`, `pop`, `del` use it raw).
+  `__setitem__`/`__contains__`; `__delitem__`/`pop` are overridden) and `CaseInsensitiveDefaultDict` (a `defaultdict`
+  with `__setitem__`, `__getitem__`, `get`, `__contains__`, `__delitem__`, `pop`, `setdefault`, `update` overridden).
+  (State after the `fix:` commits recorded in `known_findings.json`; the former behaviour is kept as regression
+  statements in `LokiModel/Findings/C12.lean`.)
 
 Python `dict` = association list in insertion order; a name is a `List Char`; `str.lower` is the generated ASCII table
 `lowerTable`; the value of a `SymbolAttributes` object is a natural number (its `tag`; `0` = the
@@ -195,10 +197,11 @@ def step (s : St) (op : Op) : St × Out :=
   | .setdefault i k h =>
     match s.tabs[i]?, (match h with | none => some 0 | some h => s.hs[h]?) with
     | some t, some c =>
-      -- `super().setdefault(fold(key), default.clone())`, and the method has no `return`
+      -- `return super().setdefault(fold(key), default.clone()).clone()`: a copy of the existing or of the new entry
+      -- (the copy is handed out but not tracked as a handle)
       match alookup (fold k) t.ents with
-      | some _ => (s, .none)
-      | none => (setEnts s i t (aset (fold k) c t.ents), .none)
+      | some v => (s, .val v)
+      | none => (setEnts s i t (aset (fold k) c t.ents), .val c)
     | _, _ => (s, .bad)
   | .update i kvs =>
     match s.tabs[i]?, resolve s.hs kvs with
@@ -226,41 +229,36 @@ def step (s : St) (op : Op) : St × Out :=
   | .del i k =>
     match s.tabs[i]? with
     | some t =>
-      -- `dict.__delitem__` (not overridden): the key as spelled
-      match alookup k t.ents with
-      | some _ => (setEnts s i t (aerase k t.ents), .unit)
+      -- `__delitem__`: `super().__delitem__(self.format_lookup_name(key))`
+      match alookup (fold k) t.ents with
+      | some _ => (setEnts s i t (aerase (fold k) t.ents), .unit)
       | none => (s, .keyError)
     | none => (s, .bad)
   | .pop i k =>
     match s.tabs[i]? with
     | some t =>
-      -- `dict.pop` (not overridden): the key as spelled; the stored object itself is handed out
-      match alookup k t.ents with
-      | some v => ret (setEnts s i t (aerase k t.ents)) (.val v)
+      -- `pop`: `super().pop(self.format_lookup_name(key), *args)`; the stored object itself is handed out
+      match alookup (fold k) t.ents with
+      | some v => ret (setEnts s i t (aerase (fold k) t.ents)) (.val v)
       | none => (s, .keyError)
     | none => (s, .bad)
   | .popd i k =>
     match s.tabs[i]? with
     | some t =>
-      match alookup k t.ents with
-      | some v => ret (setEnts s i t (aerase k t.ents)) (.val v)
+      match alookup (fold k) t.ents with
+      | some v => ret (setEnts s i t (aerase (fold k) t.ents)) (.val v)
       | none => (s, .none)
     | none => (s, .bad)
   | .clone i pk =>
     match s.tabs[i]? with
     | some t =>
-      -- `if self.parent and 'parent' not in kwargs: kwargs['parent'] = self.parent` — truthiness of a dict: an
-      -- empty parent table is falsy; `obj = type(self)(**kwargs); obj.update(self)`
+      -- `if self.parent is not None and 'parent' not in kwargs: kwargs['parent'] = self.parent`;
+      -- `obj = type(self)(**kwargs); obj.update(self)`
       let par : Option (Option Nat) :=
         match pk with
         | .some p => if p < s.tabs.length then some (some p) else none
         | .none => some none
-        | .inherit =>
-          match t.parent with
-          | none => some none
-          | some p => match s.tabs[p]? with
-            | some pt => if pt.ents.isEmpty then some none else some (some p)
-            | none => some none
+        | .inherit => some t.parent
       match par with
       | some par => ({ s with tabs := s.tabs ++ [⟨updEnts [] t.ents, par, false, none⟩] }, .unit)
       | none => (s, .bad)
@@ -302,10 +300,9 @@ def step (s : St) (op : Op) : St × Out :=
     | some t =>
       if !t.isScope || !scopedParent s p then (s, .bad)
       else
-        -- `_reset_parent`: `_parent = ref(parent)`; `if self.parent is not None: symbol_attrs.parent = parent.symbol_attrs`
-        match p with
-        | some q => (setTab s i { t with sparent := some q, parent := some q }, .unit)
-        | none => (setTab s i { t with sparent := none }, .unit)
+        -- `_reset_parent`: `_parent = ref(parent)`;
+        -- `symbol_attrs.parent = self.parent.symbol_attrs if self.parent is not None else None`
+        (setTab s i { t with sparent := p, parent := p }, .unit)
     | none => (s, .bad)
 
 /-- run a history, collecting the outputs -/
@@ -350,33 +347,26 @@ def dstep (kind : DKind) (d : DSt) (op : DOp) : DSt × Out :=
       | .dflt => (aset (lower k) 0 d, .val 0)      -- `__missing__`: `self[key] = default_factory()` with the folded key
   | .contains k => (d, .bool (alookup (lower k) d).isSome)
   | .del k =>
-    match alookup k d with
-    | some _ => (aerase k d, .unit)
+    match alookup (lower k) d with
+    | some _ => (aerase (lower k) d, .unit)
     | none => (d, .keyError)
   | .pop k =>
-    match alookup k d with
-    | some v => (aerase k d, .val v)
+    match alookup (lower k) d with
+    | some v => (aerase (lower k) d, .val v)
     | none => (d, .keyError)
   | .popd k =>
-    match alookup k d with
-    | some v => (aerase k d, .val v)
+    match alookup (lower k) d with
+    | some v => (aerase (lower k) d, .val v)
     | none => (d, .none)
   | .setdefault k v =>
-    match kind with
-    | .ordered =>
-      -- `OrderedDict.setdefault` on a subclass: `key in self` → `self[key]`, else `self[key] = default`
-      match alookup (lower k) d with
-      | some w => (d, .val w)
-      | none => (aset (lower k) v d, .val v)
-    | .dflt =>
-      -- `dict.setdefault`: raw key
-      match alookup k d with
-      | some w => (d, .val w)
-      | none => (aset k v d, .val v)
+    -- ordered: `OrderedDict.setdefault` on a subclass (`key in self` → `self[key]`, else `self[key] = default`);
+    -- default dict: the override lower-cases the key and calls `dict.setdefault`
+    match alookup (lower k) d with
+    | some w => (d, .val w)
+    | none => (aset (lower k) v d, .val v)
   | .update kvs =>
-    match kind with
-    | .ordered => (kvs.foldl (fun e kv => aset (lower kv.1) kv.2 e) d, .unit)   -- `MutableMapping.update`: `self[k] = v`
-    | .dflt => (merge d kvs, .unit)                                             -- `dict.update`: raw keys
+    -- ordered: `MutableMapping.update`; default dict: the override; both `self[k] = v` item by item
+    (kvs.foldl (fun e kv => aset (lower kv.1) kv.2 e) d, .unit)
 
 def drun (kind : DKind) (d : DSt) : List DOp → DSt × List Out
   | [] => (d, [])
